@@ -689,7 +689,10 @@ def rule_e(ctx):
         c = ctx.repo.resolve_expr(m, v)
         key = ast.unparse(k)
         if not isinstance(c, ClassInfo):
-            raise AnalysisError('C18.e: registry value %s is not a class' % ast.unparse(v))
+            rep.bad('C18.e', 'composite registry / %s' % key, m,
+                    'the registry holds %s, which is not a class: entries parsed with it share one object' %
+                    ast.unparse(v))
+            continue
         init = c.methods.get('__init__')
         wired = None
         if init is not None:
@@ -717,9 +720,14 @@ def rule_e(ctx):
             for v in returned_exprs(tp.node):
                 wired = ast.unparse(v)
         ok = wired == key
-        rep.add('C18.e', 'authentication registry / %s' % getattr(c, 'name', '?'), c if isinstance(c, ClassInfo) else am,
+        if not isinstance(c, ClassInfo):
+            rep.bad('C18.e', 'authentication registry / %s' % key, am,
+                    'the registry holds %s, which is not a class: entries parsed with it share one object' %
+                    ast.unparse(reg[-1].values[list(reg[-1].keys).index(k)]))
+            continue
+        rep.add('C18.e', 'authentication registry / %s' % c.name, c,
                 ok, 'registered under the type name it announces' if ok else
-                '%s is registered under %s but announces %s' % (getattr(c, 'name', '?'), key, wired))
+                '%s is registered under %s but announces %s' % (c.name, key, wired))
 
 
 def rule_f(ctx):
